@@ -14,13 +14,18 @@ import DracoProofs.OctaAngle
                            square roots, no trigonometry.
   * `angle_bound_exact`    hence `∠(n, v) = arccos(n·v/(‖n‖‖v‖)) ≤ 3/c = 3·(2/(2^q − 2))`
                            (reals; `θ ≤ tan θ`).
+  * `octa_fixed_point`     exact arithmetic: `QuantizedOctahedralCoordsToUnitVector` (before its
+                           normalisation; `Octa.octaVecG`, whose `Float32` instance followed by
+                           `normalise32` IS the executable decoder,
+                           `Octa.coordsToUnitVector_eq_generic`) applied to
+                           `IntegerVectorToQuantizedOctahedralCoords v` returns `v / c`.
+  * `angle_bound_exact_decoded`  hence the exactly decoded direction is within
+                           `3·(2/(2^q − 2))` of `n`.
   Missing for the full statement "angle ≤ 3·(2/(2^q−2)) + 2e-6 for the float code":
-  (a) `OctahedralCoordsToUnitVector ∘ IntegerVectorToQuantizedOctahedralCoords` returns a
-      positive multiple of `v` in exact arithmetic (the fixed-point lemma; the decoder has only a
-      `Float32` model so far), (b) the `double` roundings of the encoder (the rounded coordinates
-      can differ from `⌊·+1/2⌋` of the exact value at ties) and the `float` roundings of the
-      decoder — the `2e-6` allowance, (c) `q = 2` (`c = 1`, bound 3 rad), where
-      `9/(2c²) > 1` and the argument gives nothing.  These remain evaluated per case.
+  (b) the `double` roundings of the encoder (the rounded coordinates can differ from `⌊·+1/2⌋` of
+      the exact value at ties) and the `float` roundings of the decoder incl. its normalisation
+      — the `2e-6` allowance, (c) `q = 2` (`c = 1`, bound 3 rad), where `9/(2c²) > 1` and the
+      argument gives nothing.  These remain evaluated per case.
 -/
 namespace Draco
 
@@ -243,5 +248,59 @@ example : Real.arccos (((1 * 2 + (-2) * (-4) + (1/3) * 1 : ℚ) : ℝ)
   have ev : Octa.fixIntVec ⟨4, 15, 14, 7⟩ 2 (-4) false = (2, -4, 1) := by decide
   simp only [octa_example_round, ev] at h
   exact h
+
+/-- **Fixed point** (exact arithmetic): decoding the octahedral coordinates of an integer vector
+    `v` with `|v|₁ = center_value_` gives `v / center_value_` (the vector that
+    `OctahedralCoordsToUnitVector` then normalises). -/
+theorem octa_fixed_point (q : Nat) (t : OctaT) (hinit : Octa.init q = some t) (v : Int × Int × Int)
+    (hsum : iabs v.1 + iabs v.2.1 + iabs v.2.2 = t.center) :
+    @Octa.octaVecG ℚ Octa.exactOctaDecOps t.maxV (Octa.intVecToCoords t v)
+      = ((v.1 : ℚ) / t.center, (v.2.1 : ℚ) / t.center, (v.2.2 : ℚ) / t.center) :=
+  Octa.octaVecG_exact_fixed_point t (Octa.init_wf hinit).1 v hsum
+
+/-- non-vacuity: q = 4, v = (-3, 0, -4) (coordinates on the boundary, canonicalised) -/
+example : @Octa.octaVecG ℚ Octa.exactOctaDecOps 14 (Octa.intVecToCoords ⟨4, 15, 14, 7⟩ (-3, 0, -4))
+    = ((-3 : ℚ) / 7, 0 / 7, (-4 : ℚ) / 7) := by
+  have := octa_fixed_point 4 ⟨4, 15, 14, 7⟩ (by decide) (-3, 0, -4) (by decide)
+  simpa using this
+
+/-- Exact arithmetic, `q = 3..30`, encoder and decoder: `w` = the vector decoded (before
+    normalisation) from the coordinates the encoder assigns to the non-zero rational vector `n`.
+    The angle between `n` and `w` is at most `3·(2/(2^q − 2))`. -/
+theorem angle_bound_exact_decoded (q : Nat) (t : OctaT) (hinit : Octa.init q = some t) (hq : 3 ≤ q)
+    (n1 n2 n3 : ℚ) (hn : 0 < |n1| + |n2| + |n3|) :
+    let r := @Octa.floatVecRoundG ℚ Octa.exactDoubleOps t.center n1 n2 n3
+    let st := Octa.intVecToCoords t (Octa.fixIntVec t r.1 r.2.1 r.2.2)
+    let w := @Octa.octaVecG ℚ Octa.exactOctaDecOps t.maxV st
+    Real.arccos (((n1 * w.1 + n2 * w.2.1 + n3 * w.2.2 : ℚ) : ℝ)
+        / (Real.sqrt ((n1 ^ 2 + n2 ^ 2 + n3 ^ 2 : ℚ) : ℝ)
+           * Real.sqrt ((w.1 ^ 2 + w.2.1 ^ 2 + w.2.2 ^ 2 : ℚ) : ℝ)))
+      ≤ 3 * (2 / ((2:ℝ) ^ q - 2)) := by
+  intro r st w
+  have hwf := (Octa.init_wf hinit).1
+  obtain ⟨_, hc3⟩ := Octa.init_center hinit
+  have hc3 := hc3 hq
+  obtain ⟨hsum, _, _⟩ := Octa.angle_bound_rat t hwf (by omega) n1 n2 n3 hn
+  have hw : w = _ := octa_fixed_point q t hinit _ hsum
+  have hmain := angle_bound_exact q t hinit hq n1 n2 n3 hn
+  simp only at hmain
+  set v := Octa.fixIntVec t r.1 r.2.1 r.2.2 with hv
+  set c : ℚ := (t.center : ℚ) with hcdef
+  have hc0 : (0:ℚ) < c := by rw [hcdef]; exact_mod_cast (by omega : (0:Int) < t.center)
+  have hcr : (0:ℝ) < (c : ℝ) := by exact_mod_cast hc0
+  -- the argument of arccos is invariant under the scaling by 1/c
+  have e1 : ((n1 * w.1 + n2 * w.2.1 + n3 * w.2.2 : ℚ) : ℝ)
+      = ((n1 * v.1 + n2 * v.2.1 + n3 * v.2.2 : ℚ) : ℝ) / (c : ℝ) := by
+    rw [hw]; push_cast; field_simp
+  have e2 : ((w.1 ^ 2 + w.2.1 ^ 2 + w.2.2 ^ 2 : ℚ) : ℝ)
+      = (((v.1 : ℚ) ^ 2 + (v.2.1 : ℚ) ^ 2 + (v.2.2 : ℚ) ^ 2 : ℚ) : ℝ) / (c : ℝ) ^ 2 := by
+    rw [hw]; push_cast; field_simp
+  rw [e1, e2, Real.sqrt_div' _ (by positivity), Real.sqrt_sq hcr.le]
+  have e3 : ∀ (D a b : ℝ), D / (c : ℝ) / (a * (b / (c : ℝ))) = D / (a * b) := by
+    intro D a b
+    have : (c : ℝ) ≠ 0 := ne_of_gt hcr
+    field_simp
+  rw [e3]
+  exact hmain
 
 end Draco
